@@ -113,6 +113,20 @@ check('posclass', R.posclass((-2, 1, 0, 2), (3, 3)) == 'cut-low' and R.posclass(
       and R.posclass((-1, 5, 0, 2), (3, 3)) == 'cut-both' and R.posclass((0, 3, 0, 3), (3, 3)) == 'inside'
       and R.posclass((3, 5, 0, 2), (3, 3)) == 'outside' and R.posclass((-4, 0, 0, 2), (3, 3)) == 'outside')
 
+# 5. param_items / aperture_from_items / before_spec: the explicit-parameter construction equals the spec construction
+for spec in (['circle', 1.2], ['cann', 0.4, 1.2], ['ellipse', 2.5, 1.2, 0.6], ['eann', 1.2, 2.5, 1.2, 0.6],
+             ['rect', 5.0, 2.4, 0.6], ['rann', 2.4, 5.0, 3.0, 0.6]):
+    pos = [(1.0, 2.0), (0.3, -1.5)]
+    a1 = R.make_aperture(spec, pos)
+    items = R.param_items(spec)
+    a2 = R.aperture_from_items(spec[0], items, pos)
+    check('param_items.names', [n for n, _ in items] == R.PARAM_NAMES[spec[0]] and a1 == a2, spec)
+    check('param_items.masks', all(np.array_equal(m1.data, m2.data) and m1.bbox == m2.bbox
+                                   for m1, m2 in zip(a1.to_mask('exact'), a2.to_mask('exact'))), spec)
+    bs = R.before_spec(spec)
+    check('before_spec', bs[0] == spec[0] and len(bs) == len(spec) and all(b != v for b, v in zip(bs[1:], spec[1:]))
+          and not (R.make_aperture(bs, pos) == a1), spec)
+
 if fails:
     print(f'{len(fails)} FAILURES')
     for f in fails[:20]:
